@@ -11,6 +11,10 @@ import CijModel.Ops.C15
 import CijModel.Ops.C19
 import CijModel.Ops.C05
 import CijModel.Ops.C06
+import CijModel.Ops.C03
+import CijModel.Ops.C04
+import CijModel.Ops.C17
+import CijModel.Ops.C20
 open Lean Cij.Wire
 
 def handlers : List Handler := [
@@ -21,7 +25,11 @@ def handlers : List Handler := [
   Cij.Ops.C15.handle,
   Cij.Ops.C19.handle,
   Cij.Ops.C05.handle,
-  Cij.Ops.C06.handle
+  Cij.Ops.C06.handle,
+  Cij.Ops.C03.handle,
+  Cij.Ops.C04.handle,
+  Cij.Ops.C17.handle,
+  Cij.Ops.C20.handle
 ]
 
 def dispatch (line : String) : Json :=
